@@ -353,6 +353,11 @@ func runRawDoc(hdr Header, c any, src string) CaseResult {
 	}
 	var s jsonschema.Schema
 	if err := json.Unmarshal([]byte(doc), &s); err != nil {
+		if opt, _ := cm["opt"].(bool); opt {
+			// acceptance is left open for this document; a refusal is one of the two specified outcomes
+			res.Sample = map[string]any{"document": json.RawMessage(doc), "unmarshal": err.Error()}
+			return res
+		}
 		return fail("unmarshal", "Unmarshal accepts the document", err.Error())
 	}
 	b1, err := json.Marshal(&s)
